@@ -3,6 +3,8 @@
 package composite
 
 import (
+	"strings"
+	"net/http"
 	"fmt"
 	"sort"
 	"testing"
@@ -148,7 +150,13 @@ func c15Run(c c15Case) []mc.Finding {
 	for _, r := range c.Rules {
 		rules = append(rules, c15RuleJSON(r))
 	}
-	w.Hooks.Handle("/cc/customize", world.JSON(func(req map[string]interface{}) interface{} { return kit.M{"relatedResources": rules} }))
+	goodCustomize := world.JSON(func(req map[string]interface{}) interface{} { return kit.M{"relatedResources": rules} })
+	w.Hooks.Handle("/cc/customize", func(hc *world.HookCall) (int, http.Header, []byte, error) {
+		if strings.Contains(kit.Str(hc.Parsed, "parent", "metadata", "name"), "broken") {
+			return 503, nil, []byte("the customize hook cannot answer for this parent right now"), nil
+		}
+		return goodCustomize(hc)
+	})
 	answer := world.JSON(func(req map[string]interface{}) interface{} { return kit.M{"status": kit.M{}, "children": kit.L{}} })
 	w.Hooks.Handle("/cc/sync", answer)
 	w.Hooks.Handle("/cc/finalize", answer)
@@ -294,6 +302,31 @@ func c15Run(c c15Case) []mc.Finding {
 			bad("related-change-does-not-wake", "%s %s/%s is in the related map but changing it did not queue the parent (queue ops %v)", o.kind.Resource, o.ns, o.name, w.Q.Ops)
 		}
 	}
+	// the same with two more parents of this controller around (never synced, so no answer is remembered for
+	// them) for which the customize hook fails: that is their problem - this parent is woken all the same
+	for _, n := range []string{"a-broken", "z-broken"} {
+		w.Sim.Seed(kit.Obj(pk, pns, n))
+	}
+	w.DeliverAll()
+	for _, o := range c15Objects {
+		inner := o.name
+		if c.ClusterParent && o.kind.Namespaced {
+			inner = o.ns + "/" + o.name
+		}
+		if !want[hookKey(o.kind)+"|"+inner] || (!c.ClusterParent && o.ns != pns) {
+			continue
+		}
+		w.Q.Clear()
+		w.Sim.Edit(o.kind, o.ns, o.name, func(x map[string]interface{}) { kit.Ann(x, "touched", "1b") })
+		w.Deliver(o.kind, o.ns, o.name, false)
+		if !w.Q.Has("Add", key) {
+			bad("related-change-does-not-wake:hook-fails-for-another-parent", "%s %s/%s is in the related map of p; it changed while the customize hook was failing for two OTHER parents, and p was not queued (queue ops %v)", o.kind.Resource, o.ns, o.name, w.Q.Ops)
+		}
+	}
+	for _, n := range []string{"a-broken", "z-broken"} {
+		w.Sim.Remove(pk, pns, n)
+	}
+	w.DeliverAll()
 	// a new generation is asked about again (exactly once), and finalize gets the same related map
 	w.Sim.Edit(pk, pns, "p", func(x map[string]interface{}) { kit.Field(x, "2", "spec", "v") })
 	w.DeliverAll()
